@@ -343,6 +343,15 @@ func (c *Ctx) ruleCodegenFlow(rule string) {
 					}
 					return
 				}
+				// a helper of the generator that computes the field type: its returns are the leaves
+				if pc, isCall := v.(*ssa.Call); isCall {
+					if callee := pc.Call.StaticCallee(); callee != nil && len(callee.Blocks) > 0 && callee.Signature.Results().Len() == 1 && g.FuncByKey[g.Key(callee)] == callee {
+						for _, r := range core.ReturnsOf(callee) {
+							leaves(core.RetVal(r, 0), r.Block(), nil)
+						}
+						return
+					}
+				}
 				ok, why = false, "the field type can be "+g.ValPath(v)+", which is neither the referenced ID nor the mapped type ID"
 			}
 			leaves(fieldType, fieldType.(ssa.Instruction).Block(), nil)
